@@ -46,6 +46,42 @@ FUNCTIONS = [
       "ret": "reader", "unwrap_ok": True}),
 ]
 
+# Fragments: single expressions inside functions that as a whole are outside the translated subset (they mutate through references,
+# write to the output cursor, ...): the arithmetic that decides HOW MANY bytes a call moves and the guards that refuse a call.
+# kind "let": the right-hand side of `let <var> = <expr>;` in fn; kind "guard": the condition of `if <cond> { return Err(Error::<err> ...`.
+# `subst` maps accessor calls to the parameters of the generated function. A fragment that is not found (renamed variable, restructured
+# function) is NOT an error: the generated definition is then `fallback` (the model's own formula), the fragment is reported under
+# `fragments_not_found`, and that piece of the code is tied to the model by the correspondence check only, as the rest of the function is.
+FRAGMENTS = [
+    dict(name="gen_sized_write_n", file="src/body.rs", fn="write", kind="let", var="to_write",
+         subst=[(r"w\.available\(\)", "avail"), (r"input\.len\(\)", "input_len")],
+         params=[("avail", "N"), ("input_len", "N"), ("left_usize", "N")], ret="N", fallback="N.min (N.min avail input_len) left_usize"),
+    dict(name="gen_chunk_to_write", file="src/body.rs", fn="write_chunk", kind="let", var="to_write",
+         subst=[(r"input\.len\(\)", "input_len")],
+         params=[("input_len", "N"), ("max_chunk", "N"), ("available", "N")], ret="N", fallback="N.min (N.min input_len max_chunk) available"),
+    dict(name="gen_read_limit_n", file="src/body.rs", fn="read_limit", kind="let", var="to_read",
+         subst=[(r"src\.len\(\)", "src_len"), (r"dst\.len\(\)", "dst_len")],
+         params=[("src_len", "N"), ("dst_len", "N"), ("left_usize", "N")], ret="N", fallback="N.min (N.min src_len dst_len) left_usize"),
+    dict(name="gen_read_unlimit_n", file="src/body.rs", fn="read_unlimit", kind="let", var="to_read",
+         subst=[(r"src\.len\(\)", "src_len"), (r"dst\.len\(\)", "dst_len")],
+         params=[("src_len", "N"), ("dst_len", "N")], ret="N", fallback="N.min src_len dst_len"),
+    dict(name="gen_chunk_read_n", file="src/chunk.rs", fn="read_data", kind="let", var="to_read",
+         subst=[(r"src\.len\(\)", "src_len"), (r"dst\.len\(\)", "dst_len")],
+         params=[("src_len", "N"), ("dst_len", "N"), ("left", "N")], ret="N", fallback="N.min (N.min src_len dst_len) left"),
+    dict(name="gen_size_len_end", file="src/chunk.rs", fn="read_size", kind="let", var="len_end",
+         subst=[(r"maybe_meta\s*\.unwrap_or\(([^()]*)\)", r"(if meta_some { meta_val } else { \1 })")],
+         params=[("meta_some", "bool"), ("meta_val", "N"), ("i", "N")], ret="N",
+         fallback="N.min (if meta_some then meta_val else 21) i"),
+    dict(name="gen_write_overshoot", file="src/client/call.rs", fn="write", nth=2, kind="guard", err="BodyLargerThanContentLength",
+         subst=[(r"input\.len\(\)", "input_len")],
+         params=[("input_len", "N"), ("left", "N")], ret="bool", fallback="N.ltb left input_len"),
+    dict(name="gen_write_after_finish", file="src/client/call.rs", fn="write", nth=2, kind="guard", err="BodyContentAfterFinish",
+         subst=[(r"input\.is_empty\(\)", "input_empty"), (r"self\.state\.writer\.is_ended\(\)", "ended")],
+         params=[("input_empty", "bool"), ("ended", "bool")], ret="bool", fallback="(negb input_empty) && ended"),
+    dict(name="gen_direct_overshoot", file="src/client/call.rs", fn="consume_direct_write", kind="guard", err="BodyLargerThanContentLength",
+         subst=[], params=[("amount", "N"), ("left", "N")], ret="bool", fallback="N.ltb left amount"),
+]
+
 STATUS = {"CONTINUE": 100, "SWITCHING_PROTOCOLS": 101, "OK": 200, "NO_CONTENT": 204, "MULTIPLE_CHOICES": 300, "MOVED_PERMANENTLY": 301,
           "FOUND": 302, "SEE_OTHER": 303, "NOT_MODIFIED": 304, "USE_PROXY": 305, "TEMPORARY_REDIRECT": 307, "PERMANENT_REDIRECT": 308}
 VERSIONS = {"HTTP_09": "V09", "HTTP_10": "V10", "HTTP_11": "V11", "HTTP_2": "V2", "HTTP_3": "V3"}
@@ -81,14 +117,17 @@ def tokenize(src):
     return out
 
 
-def extract_fn(text, name):
+def extract_fn(text, name, nth=1):
     m = None
+    seen = 0
     for cand in re.finditer(r"fn %s\s*(?:<[^>]*>)?\s*\(" % re.escape(name), text):
         semi = text.find(";", cand.end())
         brace = text.find("{", cand.end())
         if brace != -1 and (semi == -1 or brace < semi):      # a definition, not a trait method declaration
-            m = cand
-            break
+            seen += 1
+            if seen == nth:
+                m = cand
+                break
     if not m:
         raise Unsupported("function %s not found" % name)
     i = text.index("{", m.end())
@@ -502,6 +541,35 @@ def translate_fn(text, rust_name, coq_name, self_ty, consts, known, opts=None):
     return "\n".join(p.aux + [head]), ret_ty
 
 
+def translate_fragment(text, fr, consts):
+    _sig, body = extract_fn(text, fr["fn"], fr.get("nth", 1))
+    if fr["kind"] == "let":
+        m = re.search(r"let\s+(?:mut\s+)?%s(?:\s*:\s*[\w<>]+)?\s*=\s*(?P<e>[^;]*);" % re.escape(fr["var"]), body)
+    else:
+        m = re.search(r"if\s+(?P<e>[^{};]*?)\s*\{\s*return\s+Err\(\s*Error::%s\b" % re.escape(fr["err"]), body)
+    if not m:
+        raise Unsupported("fragment not found")
+    e = m.group("e")
+    e = re.sub(r"\s+as\s+(?:u64|usize)\b", "", e)
+    for rx, rep in fr["subst"]:
+        e = re.sub(rx, rep, e)
+    p = Parser(tokenize(e), consts, None, {})
+    p.vars = dict(fr["params"])
+    p.params = [n for n, _ in fr["params"]]
+    p.assigned = []
+    p.coq_name = fr["name"]
+    p.rust_name = fr["fn"]
+    out = p.expr()
+    if p.peek()[0] != "eof":
+        raise Unsupported("trailing tokens in fragment %s: %r" % (fr["name"], p.peek()))
+    used = set(t[1] for t in p.t if t[0] == "id")
+    unknown = [u for u in used if u not in p.vars and u not in ("if", "else", "min", "max", "saturating_sub", "true", "false")
+               and not re.fullmatch(r"[A-Z][A-Z0-9_]*", u)]
+    if unknown:
+        raise Unsupported("fragment %s mentions %s, which is not one of its parameters" % (fr["name"], unknown))
+    return out[0]
+
+
 PREAMBLE = """(* GENERATED by tools/rs2coq.py from the repository sources on every run -- do not edit.
    Each definition is the translation of the Rust function named above it; proofs/Gen_equiv_ext.v and proofs/Gen_equiv_body.v prove it equal to the
    hand-written model's function for all arguments. *)
@@ -534,11 +602,25 @@ def regenerate(repo, out_path):
             # keep the development compiling: a definition that cannot equal the model's makes Gen_equiv fail visibly
             chunks.append("(* %s :: fn %s -- NOT TRANSLATED: %s *)\nDefinition %s_untranslated : unit := tt.\n" % (
                 rel, rust_name, str(e).replace("*)", "* )"), coq_name))
+    frags = []
+    frags_missing = {}
+    for fr in FRAGMENTS:
+        sig = " ".join("(%s : %s)" % (n, t) for n, t in fr["params"])
+        where = "%s :: fn %s :: %s" % (fr["file"], fr["fn"], ("let " + fr["var"]) if fr["kind"] == "let" else ("guard of Error::" + fr["err"]))
+        try:
+            text = open(os.path.join(repo, fr["file"])).read()
+            e = translate_fragment(text, fr, constants_of(text))
+            chunks.append("(* %s *)\nDefinition %s %s : %s :=\n  %s.\n" % (where, fr["name"], sig, fr["ret"], e))
+            frags.append(fr["name"])
+        except (Unsupported, OSError, ValueError, KeyError, IndexError, AttributeError) as ex:
+            frags_missing[fr["name"]] = "%s: %s" % (type(ex).__name__, ex)
+            chunks.append("(* %s -- NOT FOUND in the sources (%s): the model's own formula stands in; tied by correspondence only *)\n"
+                          "Definition %s %s : %s :=\n  %s.\n" % (where, str(ex).replace("*)", "* )"), fr["name"], sig, fr["ret"], fr["fallback"]))
     text = "\n".join(chunks)
     if not os.path.exists(out_path) or open(out_path).read() != text:
         with open(out_path, "w") as f:
             f.write(text)
-    return {"translated": done, "failed": failed}
+    return {"translated": done, "failed": failed, "fragments": frags, "fragments_not_found": frags_missing}
 
 
 if __name__ == "__main__":
